@@ -382,3 +382,78 @@ func ReleaseSleeps() {
 		}
 	}
 }
+
+// Ticker is a virtual ticker: every tick is one parked timer that the harness fires.
+type Ticker struct {
+	C    <-chan Time
+	c    chan Time
+	d    Duration
+	rt   *time.Ticker
+	stop chan struct{}
+}
+
+func NewTicker(d Duration) *Ticker {
+	if real {
+		rt := time.NewTicker(d)
+		return &Ticker{C: rt.C, rt: rt}
+	}
+	c := make(chan Time, 1)
+	t := &Ticker{C: c, c: c, d: d, stop: make(chan struct{})}
+	go func() {
+		for {
+			e := register(d, nil)
+			select {
+			case now := <-e.ch:
+				select {
+				case c <- now:
+				default:
+				}
+			case <-t.stop:
+				mu.Lock()
+				removeLocked(e)
+				mu.Unlock()
+				return
+			}
+		}
+	}()
+	return t
+}
+
+func (t *Ticker) Stop() {
+	if t.rt != nil {
+		t.rt.Stop()
+		return
+	}
+	select {
+	case <-t.stop:
+	default:
+		close(t.stop)
+	}
+}
+
+func (t *Ticker) Reset(d Duration) {
+	if t.rt != nil {
+		t.rt.Reset(d)
+	}
+}
+
+func Tick(d Duration) <-chan Time { return NewTicker(d).C }
+
+func UnixMicro(us int64) Time { return time.UnixMicro(us) }
+func ParseInLocation(l, v string, loc *Location) (Time, error) {
+	return time.ParseInLocation(l, v, loc)
+}
+func LoadLocation(name string) (*Location, error) { return time.LoadLocation(name) }
+func FixedZone(name string, off int) *Location    { return time.FixedZone(name, off) }
+
+const (
+	StampMilli = time.StampMilli
+	Stamp      = time.Stamp
+	RFC1123Z   = time.RFC1123Z
+	RFC850     = time.RFC850
+	RubyDate   = time.RubyDate
+	RFC822Z    = time.RFC822Z
+	Sunday     = time.Sunday
+	Monday     = time.Monday
+	Saturday   = time.Saturday
+)
